@@ -504,3 +504,17 @@ mod tests {
         assert_eq!(rel, expected);
     }
 }
+
+/// Verification export (compiled only with `--cfg rip_verif`): runs the real `capture_stream`
+/// over a caller-supplied reader (which controls the chunking).
+#[cfg(rip_verif)]
+pub async fn verif_capture_stream<R: AsyncRead + Unpin>(
+    stream: R,
+    config: &BuiltinToolConfig,
+    max_preview_bytes: usize,
+) -> serde_json::Value {
+    let capture = capture_stream(Some(stream), config, max_preview_bytes).await;
+    let mut value = capture.as_json();
+    value["preview_lines"] = json!(capture.preview_lines);
+    value
+}
